@@ -123,10 +123,7 @@ class file_store(base_store):
         but does it in a way that is guaranteed to be atomic even over NFS and
         using compression on the disk for faster access.
         '''
-        if name in self.packed:
-            del self.packed[name]
-            self.resave_pack()
-
+        key = name
         self._maybe_create()
         name = self._getfname(name)
         os.makedirs(dirname(name), exist_ok=True)
@@ -141,6 +138,7 @@ class file_store(base_store):
                 output.close()
                 fsync_dir(fname)
                 os.rename(fname, name)
+                self._unpack(key)
                 return
         except ImportError:
             pass
@@ -157,6 +155,15 @@ class file_store(base_store):
         # Rename is atomic even over NFS.
         fsync_dir(fname)
         os.rename(fname, name)
+        self._unpack(key)
+
+    def _unpack(self, name):
+        '''
+        Drops a stale packed copy of `name` (only after the new value is in place)
+        '''
+        if name in self.packed:
+            del self.packed[name]
+            self.resave_pack()
 
     def _iter_filekeys(self):
         '''
